@@ -586,9 +586,12 @@ class Executor:
                 ca = self.heap.get(st, ("card", c.t.name()))
                 da = self.heap.get(st, ("dom", c.t.name(), c.t.k))
                 r = fresh("r", z3.IntSort())
-                st.assume(z3.ForAll([r], z3.And(z3.Select(ca, r) >= 0, (z3.Select(ca, r) == 0) ==
-                                                z3.ForAll([k], z3.Not(z3.Select(z3.Select(da, r), k)))),
-                                    patterns=[z3.Select(ca, r)]))
+                body = z3.And(z3.Select(ca, r) >= 0, (z3.Select(ca, r) == 0) ==
+                              z3.ForAll([k], z3.Not(z3.Select(z3.Select(da, r), k))))
+                try:
+                    st.assume(z3.ForAll([r], body, patterns=[z3.Select(ca, r)]))
+                except z3.Z3Exception:          # the array term is not usable as a pattern (e.g. a store chain)
+                    st.assume(z3.ForAll([r], body))
                 return
         n = self.card(st, c)
         d = self.dom(st, c)
